@@ -247,6 +247,8 @@ def lh_icov(seed, par, shape):
         return carr(seed + 1, shape, "p")
     if ic == "scal":
         return float(par["icov_c"])
+    if ic == "invdiag":          # icov = makeOp(var).inverse  (N.inverse)
+        return 1./carr(seed + 1, shape, "p")
     return 1.
 
 
@@ -278,6 +280,22 @@ class Mirror:
         self.nodes = prog["nodes"]
         self.xp = xp          # numpy (generation) or jax.numpy (oracle); default jax.numpy
         self.tape = None      # list collecting every intermediate value (for rounding scales)
+
+    @staticmethod
+    def apply_obj(ob, v, jnp):
+        k = ob[0]
+        if k == "ptw":
+            return m_ptw(ob[1], v, ob[2:], jnp)
+        if k == "scale":
+            return v*ob[1]
+        if k == "mulc":
+            return carr(ob[1], v.shape, "p")*v
+        if k == "addc":
+            c = carr(ob[1], v.shape, "n")
+            return v - c if ob[2] else v + c
+        if k == "matrix":
+            return (carr(ob[1], (v.shape[0], v.shape[0]), "n")*0.5) @ v
+        raise ValueError(k)
 
     # -- evaluation ---------------------------------------------------------
     def ev(self, i, env, cache=None):
@@ -329,6 +347,18 @@ class Mirror:
         if op == "mulc":
             v = E(nd[1])
             return carr(nd[2], v.shape, "cp" if nd[3] else "p")*v
+        if op == "invdiag":       # views of makeOp(d): inverse / adjoint / inverse.adjoint
+            v = E(nd[1])
+            d = carr(nd[2], v.shape, "cp" if nd[4] else "p")
+            if nd[3] == "inv":
+                return v/d
+            if nd[3] == "adj":
+                return np.conj(d)*v
+            return v/np.conj(d)
+        if op == "invscale":      # ScalingOperator(c).inverse
+            return E(nd[1])/nd[2]
+        if op == "app":           # a shared operator *object* applied to a child
+            return self.apply_obj(self.prog["objs"][nd[1]], E(nd[2]), jnp)
         if op in ("sum", "integ"):
             v = E(nd[1])
             ds = nd[3]                     # DT desc of the child (kept in the node)
@@ -656,6 +686,28 @@ def build_nifty(I, prog, upto=None, vdoms=None):
         o = ops[j]
         return o.materialise() if isinstance(o, _Vars) else o
 
+    objs = {}
+
+    def OBJ(j, dom):
+        """operator objects that are applied to several children (same Python object)"""
+        if j not in objs:
+            ob = prog["objs"][j]
+            k = ob[0]
+            if k == "ptw":
+                objs[j] = I.ScalingOperator(dom, 1.).ptw(ob[1], *ob[2:])
+            elif k == "scale":
+                objs[j] = I.ScalingOperator(dom, ob[1])
+            elif k == "mulc":
+                objs[j] = I.makeOp(I.makeField(dom, carr(ob[1], dom.shape, "p")))
+            elif k == "addc":
+                objs[j] = I.Adder(I.makeField(dom, carr(ob[1], dom.shape, "n")), neg=bool(ob[2]))
+            elif k == "matrix":
+                n = dom.shape[0]
+                objs[j] = I.MatrixProductOperator(dom, carr(ob[1], (n, n), "n")*0.5)
+            else:
+                raise ValueError(k)
+        return objs[j]
+
     for i, nd in enumerate(nodes if upto is None else nodes[:upto + 1]):
         op = nd[0]
         if op == "var":
@@ -701,6 +753,19 @@ def build_nifty(I, prog, upto=None, vdoms=None):
             a = O(nd[1])
             c = I.makeField(a.target, carr(nd[2], a.target.shape, "cp" if nd[3] else "p"))
             r = c*a if i % 2 else I.makeOp(c) @ a
+        elif op == "invdiag":
+            a = O(nd[1])
+            D = I.makeOp(I.makeField(a.target, carr(nd[2], a.target.shape,
+                                                    "cp" if nd[4] else "p")))
+            V = {"inv": D.inverse, "adj": D.adjoint, "invadj": D.inverse.adjoint
+                 if i % 2 else D.adjoint.inverse}[nd[3]]
+            r = V @ a if i % 3 else V(a)
+        elif op == "invscale":
+            a = O(nd[1])
+            r = I.ScalingOperator(a.target, nd[2]).inverse @ a
+        elif op == "app":
+            a = O(nd[2])
+            r = OBJ(nd[1], a.target) @ a
         elif op == "sum":
             r = O(nd[1]).sum(nd[2] if nd[2] is None else tuple(nd[2]))
         elif op == "integ":
@@ -821,6 +886,8 @@ def _build_lh(I, nd, ops, O):
             icov = I.makeOp(I.makeField(tgt, carr(seed + 1, shp, "p")), sampling_dtype=sd)
         elif ic == "scal":
             icov = I.ScalingOperator(tgt, float(par["icov_c"]), sampling_dtype=sd)
+        elif ic == "invdiag":
+            icov = I.makeOp(I.makeField(tgt, carr(seed + 1, shp, "p")), sampling_dtype=sd).inverse
         else:
             icov = None
         e = I.GaussianEnergy(data=d, inverse_covariance=icov, domain=tgt,
@@ -921,6 +988,7 @@ class Gen:
         self.leafops, self.jax, self.mdweight = leafops, jax, int(mdweight)
         self.linstart, self.minbin = linstart, minbin
         self.nodes, self.info = [], []
+        self.objs = []
         self.inputs, self.virtual, self.env = {}, {}, {}
         self.banned = set()
         self.open_subst = None
@@ -1029,8 +1097,8 @@ class Gen:
     def step(self):
         rng = self.rng
         kinds = ["ptw"]*5 + ["affine"]*3 + ["binary"]*5 + ["reduce", "struct", "leaf", "cplxop",
-                                                           "subst"] \
-            + ["pack", "mdop"]*self.mdweight
+                                                           "subst", "wchain"] \
+            + ["pack", "mdop"]*self.mdweight + (["app"]*6 if self.total else [])
         for _ in range(20):
             k = kinds[int(rng.integers(0, len(kinds)))]
             r = getattr(self, "p_" + k)()
@@ -1112,7 +1180,8 @@ class Gen:
         c = float(np.round(rng.uniform(0.3, 2.0)*(-1 if rng.integers(0, 3) == 0 else 1), 2))
         seed = int(rng.integers(0, 10**6))
         cplxconst = bool(self.cplx and inf["t"][2] and rng.integers(0, 2))
-        opts = ["scale", "addc", "addn", "mulc", "neg", "subn", "rsubn", "divn"]
+        opts = ["scale", "addc", "addn", "mulc", "neg", "subn", "rsubn", "divn", "invdiag",
+                "invscale"]
         if not self.total:
             opts += ["rdivn", "pown", "rpown", "absop"]
         k = opts[int(rng.integers(0, len(opts)))]
@@ -1130,6 +1199,11 @@ class Gen:
             return self.add([k, a, c], inf["t"], [a], mag=m/abs(c))
         if k == "mulc":
             return self.add(["mulc", a, seed, cplxconst], inf["t"], [a], mag=2.5*m)
+        if k == "invdiag":
+            var = ["inv", "inv", "adj", "invadj"][int(rng.integers(0, 4))]
+            return self.add(["invdiag", a, seed, var, cplxconst], inf["t"], [a], mag=2.5*m)
+        if k == "invscale":
+            return self.add(["invscale", a, c], inf["t"], [a], mag=m/abs(c))
         if k == "rdivn":
             if not ptw_valid("reciprocal", v):
                 return None
@@ -1225,6 +1299,189 @@ class Gen:
             fn = list(JAX_FUNCS)[int(rng.integers(0, len(JAX_FUNCS)))]
             return self.add(["jax1", a, fn], inf["t"], [a], nonlinear=True)
         return None
+
+    # -- shared operator objects (total mode) ---------------------------------------------
+    @staticmethod
+    def obj_mag(ob, m):
+        """magnitude bound of obj applied to something bounded by m (None: not allowed)"""
+        k = ob[0]
+        if k == "ptw":
+            f = ob[1]
+            if f in ("exp", "expm1", "sinh", "cosh"):
+                return float(np.exp(m)) if m <= 6 else None
+            if f == "exponentiate":
+                e = m*abs(np.log(ob[2]))
+                return float(np.exp(e)) if e <= 6 else None
+            if f == "power":
+                return m*m
+            if f == "softplus":
+                return m + 1.
+            if f == "arctan":
+                return 1.6
+            return 1.
+        if k == "scale":
+            return abs(ob[1])*m
+        if k == "mulc":
+            return 2.5*m
+        if k == "addc":
+            return m + 4.
+        if k == "matrix":
+            return 8.*m
+        raise ValueError(k)
+
+    def new_obj(self, ds, kinds=("ptw", "ptw", "ptw", "scale", "mulc", "addc", "matrix"),
+                fns=None):
+        rng = self.rng
+        k = kinds[int(rng.integers(0, len(kinds)))]
+        if k == "matrix" and not (len(ds) == 1 and len(ds[0][1]) == 1):
+            k = "mulc"
+        if k == "ptw":
+            fns = fns or TOTAL_PTW
+            f = fns[int(rng.integers(0, len(fns)))]
+            if f == "power2":
+                ob = ["ptw", "power", 2]
+            elif f == "exponentiate":
+                ob = ["ptw", f, [2., 0.5, 1.5][int(rng.integers(0, 3))]]
+            else:
+                ob = ["ptw", f]
+        elif k == "scale":
+            ob = ["scale", float(np.round(rng.uniform(0.3, 3.0)*(-1 if rng.integers(0, 4) == 0
+                                                                  else 1), 2))]
+        elif k == "addc":
+            ob = ["addc", int(rng.integers(0, 10**6)), int(rng.integers(0, 2))]
+        else:
+            ob = [k, int(rng.integers(0, 10**6))]
+        self.objs.append(ob)
+        return len(self.objs) - 1
+
+    def app(self, j, a):
+        inf = self.info[a]
+        mag = self.obj_mag(self.objs[j], inf["mag"] or 0.)
+        if mag is None:
+            return None
+        return self.add(["app", j, a], inf["t"], [a], nonlinear=self.objs[j][0] == "ptw",
+                        mag=mag)
+
+    def p_app(self):
+        rng = self.rng
+        a = self.choose(self.dtnodes())
+        if a is None:
+            return None
+        if self.objs and rng.random() < 0.6:
+            j = int(rng.integers(0, len(self.objs)))
+        else:
+            j = self.new_obj(self.info[a]["t"][1])
+        return self.app(j, a)
+
+    def nondiag(self, a):
+        """a non-diagonal linear operator on top of node a (or None)"""
+        rng = self.rng
+        inf = self.info[a]
+        ds = inf["t"][1]
+        seed = int(rng.integers(0, 10**6))
+        m = inf["mag"] or 0.
+        if len(ds) == 1 and len(ds[0][1]) == 1:
+            return self.add(["matrix", a, seed], inf["t"], [a], mag=8*m)
+        if len(ds) == 2 and not self.total and rng.integers(0, 2):
+            return self.add(["leinsum", a, "j,ij->ij", seed], inf["t"], [a])
+        c = [d for d in DT_MENU if d != ds and dt_size(d) == dt_size(ds)]
+        if not c:
+            return None
+        nd = c[int(rng.integers(0, len(c)))]
+        return self.add(["reshape", a, nd], t_dt(nd, 0), [a], mag=m)
+
+    def p_wchain(self, a=None):
+        """scalar * (inverse-flagged diagonal) @ (non-diagonal linear) @ nonlinearity: the
+        Jacobian chain starts with a lazily inverted DiagonalOperator below a scalar factor"""
+        rng = self.rng
+        if self.total:
+            return None
+        if a is None:
+            a = self.choose(self.dtnodes(lambda inf: len(inf["t"][1]) >= 1))
+        if a is None:
+            return None
+        n1 = self.p_ptw_on(a) if rng.integers(0, 4) else a
+        if n1 is None:
+            return None
+        n2 = self.nondiag(n1)
+        if n2 is None:
+            return None
+        inf = self.info[n2]
+        seed = int(rng.integers(0, 10**6))
+        var = ["inv", "inv", "invadj"][int(rng.integers(0, 3))]
+        if rng.integers(0, 4) == 0:
+            n3 = self.add(["invscale", n2, float(np.round(rng.uniform(0.4, 2.5), 2))], inf["t"],
+                          [n2])
+        else:
+            n3 = self.add(["invdiag", n2, seed, var, bool(self.cplx and inf["t"][2]
+                                                           and rng.integers(0, 2))],
+                          inf["t"], [n2])
+        if n3 is None:
+            return None
+        c = float(np.round(rng.uniform(0.3, 3.0)*(-1 if rng.integers(0, 3) == 0 else 1), 2))
+        if abs(abs(c) - 1.) < 0.05:
+            c = 2.5
+        k = ["scale", "scale", "divn"][int(rng.integers(0, 3))]
+        return self.add([k, n3, c], inf["t"], [n3])
+
+    def lindiff(self):
+        """(S - D)(x) (+/-) nonlinearity(x): differences of scaling/diagonal operators on an
+        input combined with point-wise functions of the same input (their Jacobians are
+        flattened into one sum of diagonal operators with mixed signs)"""
+        rng = self.rng
+        lv = [i for i, nd in enumerate(self.nodes) if nd[0] == "var" and nd[1] in self.inputs
+              and not self.inputs[nd[1]][1]]
+        if not lv:
+            return None
+        x = lv[int(rng.integers(0, len(lv)))]
+        t = self.info[x]["t"]
+        sd = lambda: int(rng.integers(0, 10**6))
+        c = float(np.round(rng.uniform(0.3, 2.5), 2))
+        ds = t[1]
+        S = None
+        if rng.integers(0, 5) < 3:          # non-diagonal S: (S - D) survives as a SumOperator
+            if len(ds) == 1 and len(ds[0][1]) == 1:
+                S = self.add(["matrix", x, sd()], t, [x], mag=32.)
+            elif len(ds) == 2:
+                S = self.add(["leinsum", x, "j,ij->ij", sd()], t, [x])
+        if S is None:
+            u = int(rng.integers(0, 3))
+            S = x if u == 0 else (self.add(["scale", x, c], t, [x]) if u == 1
+                                  else self.add(["mulc", x, sd(), False], t, [x]))
+        D = self.add(["mulc", x, sd(), False], t, [x])
+        if S is None or D is None:
+            return None
+
+        def nonlin():
+            if rng.integers(0, 4) == 0:
+                return self.add(["mul", x, x], t, [x, x], nonlinear=True, binary=True)
+            return self.p_ptw_on(x)
+        N = nonlin()
+        if N is None:
+            return None
+        form = int(rng.integers(0, 6))
+        B = lambda k, a, b: self.add([k, a, b], t, [a, b], binary=True)
+        if form == 0:                              # (S - D) + N
+            R = B("sub", S, D)
+            r = R and B(["add", "sub"][int(rng.integers(0, 2))], R, N)
+        elif form == 1:                            # N + (S - D)
+            R = B("sub", S, D)
+            r = R and B(["add", "sub"][int(rng.integers(0, 2))], N, R)
+        elif form == 2:                            # S + N - D
+            R = B("add", S, N)
+            r = R and B("sub", R, D)
+        elif form == 3:                            # D - S + N
+            R = B("sub", D, S)
+            r = R and B("add", R, N)
+        elif form == 4:                            # S - N1 - N2
+            R = B("sub", S, N)
+            N2 = nonlin()
+            r = R and N2 and B("sub", R, N2)
+        else:                                      # (S - D) - N, then squared
+            R = B("sub", S, D)
+            r = R and B("sub", R, N)
+            r = r and self.add(["mul", r, r], t, [r, r], nonlinear=True, binary=True)
+        return r or None
 
     def p_cplxop(self):
         rng = self.rng
@@ -1393,7 +1650,11 @@ class Gen:
         kind = kinds[int(rng.integers(0, len(kinds)))]
         par = {}
         if kind == "gauss":
-            par = dict(cplx=c, icov=[None, "diag", "scal"][int(rng.integers(0, 3))],
+            if rng.integers(0, 3) == 0:      # scalar factor on top of the model
+                a2 = self.add(["scale", a, float(np.round(rng.uniform(1.5, 3.0), 2))], inf["t"],
+                              [a])
+                a = a2 if a2 is not None else a
+            par = dict(cplx=c, icov=[None, "diag", "scal", "invdiag"][int(rng.integers(0, 4))],
                        icov_c=float(np.round(rng.uniform(0.4, 2.5), 2)),
                        nodata=bool(rng.integers(0, 4) == 0))
         elif kind in ("poisson", "invgamma", "categorical"):
@@ -1490,6 +1751,8 @@ class Gen:
             self.make_mdleaf()
         if self.linstart and rng.random() < self.linstart:
             self.linear_start()
+        if not self.total and rng.random() < (0.15 if self.md else 0.6):
+            self.lindiff()
         n = 0
         while n < self.nsteps:
             r = self.step()
@@ -1615,6 +1878,13 @@ class Gen:
         usedvirt = {nd[2] for nd in nodes if nd[0] == "subst"}
         prog = dict(inputs=inputs, single=not self.md, nodes=nodes,
                     virtual={k: v[0] for k, v in self.virtual.items() if k in usedvirt})
+        used = sorted({nd[1] for nd in nodes if nd[0] == "app"})
+        if used:
+            oren = {o: n for n, o in enumerate(used)}
+            prog["objs"] = [self.objs[o] for o in used]
+            for nd in nodes:
+                if nd[0] == "app":
+                    nd[1] = oren[nd[1]]
         if sum(self.info[i]["bin"] for i in order) < self.minbin:
             return None
         st = dict(n_nodes=len(nodes), nl=sum(self.info[i]["nl"] for i in order),
@@ -1635,7 +1905,7 @@ class Gen:
         op = nd[0]
         if op in ("var", "vars"):
             return []
-        if op in ("ptw", "mdptw"):
+        if op in ("ptw", "mdptw", "app"):
             return [nd[2]]
         if op in ("add", "sub", "mul", "div", "pow", "vdot", "mdadd", "mdmul", "lhsum"):
             return [nd[1], nd[2]]
@@ -1653,7 +1923,7 @@ class Gen:
         op = nd[0]
         if op in ("var", "vars"):
             return nd
-        if op in ("ptw", "mdptw", "lh"):
+        if op in ("ptw", "mdptw", "lh", "app"):
             nd[2] = ren[nd[2]]
         elif op in ("add", "sub", "mul", "div", "pow", "vdot", "mdadd", "mdmul", "lhsum"):
             nd[1], nd[2] = ren[nd[1]], ren[nd[2]]
@@ -1664,6 +1934,83 @@ class Gen:
         else:
             nd[1] = ren[nd[1]]
         return nd
+
+
+TEMPLATE_FAMILIES = ("same-obj-two-keys", "nested-leaf-sharing", "leaf-chains-one-key",
+                     "subtree-with-chains-on-top", "obj-on-two-subtrees", "two-groups")
+_GENTLE = ("sin", "cos", "tanh", "sigmoid", "arctan", "sinc", "softplus")
+
+
+def gen_template(rng, family=None):
+    """trees of the families of shared-object layouts that optimise_operator is documented to
+    handle (shared leaf chains, nested prefixes, one operator object above several keys or
+    sub-trees).  -> (prog, None, stats, family) or None"""
+    family = family or TEMPLATE_FAMILIES[int(rng.integers(0, len(TEMPLATE_FAMILIES)))]
+    for _ in range(10):
+        g = Gen(rng, md=True, nkeys=(2, 3), total=True, same_dt=True, maxdepth=12)
+        lv = {k: g.leaf(k) for k in g.inputs}
+        keys = list(lv)
+        ds = g.inputs[keys[0]][0]
+        x, y = lv[keys[0]], lv[keys[1]]
+        inner = lambda: g.new_obj(ds, kinds=("ptw",), fns=_GENTLE + ("exp", "sinh", "expm1"))
+        fn = lambda: g.new_obj(ds, kinds=("ptw",), fns=_GENTLE + ("power2",))
+        lin = lambda: g.new_obj(ds, kinds=("scale", "scale", "mulc"))
+
+        def B(a, b, ks=("mul", "add", "sub")):
+            if a is None or b is None:
+                return None
+            k = ks[int(rng.integers(0, len(ks)))]
+            ma, mb = g.info[a]["mag"], g.info[b]["mag"]
+            return g.add([k, a, b], g.info[a]["t"], [a, b], nonlinear=(k == "mul"), binary=True,
+                         mag=ma*mb if k == "mul" else ma + mb)
+
+        def A(j, a):
+            return None if a is None else g.app(j, a)
+        r = None
+        if family == "same-obj-two-keys":
+            e = inner()
+            parts = [A(lin(), A(e, lv[k])) for k in keys]
+            r = parts[0]
+            for p_ in parts[1:]:
+                r = B(r, p_)
+            if rng.integers(0, 2):
+                r = B(r, B(A(fn(), x), A(fn(), y)))
+        elif family == "nested-leaf-sharing":
+            e, s_ = inner(), fn()
+            r = B(A(lin(), A(s_, A(e, x))), A(lin(), A(s_, A(e, x))))
+            if rng.integers(0, 2):                       # three levels
+                q = fn()
+                r = B(A(lin(), A(q, A(s_, A(e, x)))), A(lin(), A(q, A(s_, A(e, x)))))
+                r = B(r, A(lin(), A(s_, A(e, x))), ("add", "sub"))
+            r = B(r, A(fn(), A(e, x)), ("add", "sub", "mul"))
+            if rng.integers(0, 2):
+                r = B(r, A(fn(), y))
+        elif family == "leaf-chains-one-key":
+            e, s_ = inner(), fn()
+            r = B(A(lin(), A(s_, A(e, x))), A(lin(), A(s_, A(e, x))))
+            r = B(r, A(fn(), A(s_, A(e, x))))
+        elif family == "subtree-with-chains-on-top":
+            n = B(A(fn(), x), A(fn(), y), ("mul", "add"))
+            e = fn()
+            r = B(A(lin(), A(e, n)), A(lin(), A(e, n)))
+            r = B(r, A(fn(), n))
+        elif family == "obj-on-two-subtrees":
+            s_, t_ = fn(), fn()
+            n1 = B(A(s_, x), A(t_, y), ("mul",))
+            n2 = B(A(s_, x), A(t_, y), ("add", "sub"))
+            e = fn()
+            r = B(A(lin(), A(e, n1)), A(lin(), A(e, n2)))
+            r = B(r, B(n1, n2))
+        elif family == "two-groups":
+            s_, t_ = inner(), inner()
+            r = B(B(A(lin(), A(s_, x)), A(lin(), A(s_, x))),
+                  B(A(lin(), A(t_, y)), A(lin(), A(t_, y))), ("add", "sub", "mul"))
+        if r is None:
+            continue
+        out = g.finish(r)
+        if out is not None:
+            return out[0], out[1], out[2], family
+    return None
 
 
 def gen_program(rng, **cfg):
